@@ -492,6 +492,120 @@ def enc_chanidx(c):
     return [2, c["r2"] * c["r2"], 4, n if c["padv"] is None else c["padv"], n] + [int(v) for g in c["geom"] for v in g]
 
 
+# ---- extract_wfs_array called directly (array-level entry point) ---------------------------------
+def gen_array_case(rng, big=None):
+    if big is not None:
+        import neuropixel
+        hh = neuropixel.trace_header(**big)
+        geom = [[int(x), int(y)] for x, y in zip(hh["x"], hh["y"])]
+        r2 = rng.choice([60, 150, 400])                       # radius * 2
+        ns = rng.randrange(60, 120)
+        L = rng.randrange(4, 20)
+    else:
+        geom = gen_geom(rng, rng.choice([1, 2, 3, 4, 6, 9, 12]))
+        r2 = rng.choice([0, 100, 200, 400, 401, 640, rng.randrange(0, 900)])
+        ns = rng.randrange(12, 200)
+        L = rng.randrange(1, min(24, ns - 2))
+    nc = len(geom)
+    to = rng.choice([0, L - 1, L // 3, rng.randrange(0, L)])
+    dtype = rng.choice(["float32", "float64", "int16", "int32"])
+    add_nan = rng.random() < 0.65
+    lo, hi = to, ns - (L - to) - 1                            # valid samples: lo <= s, last one <= hi
+    kind = rng.choice(["valid"] * 7 + ["assert", "wrap", "peak_out", "empty"])
+    n = rng.randrange(1, 7)
+    samples = sorted(rng.choice([lo, lo + 1, hi, hi - 1, rng.randrange(lo, hi + 1)]) for _ in range(n)) if hi >= lo else [lo]
+    peaks = [rng.choice([0, nc - 1, rng.randrange(nc)]) for _ in samples]
+    if hi < lo:
+        kind = "assert"
+    if kind == "assert":
+        samples[-1] = hi + 1 + rng.choice([0, 0, 1, 5])
+    elif kind == "wrap" and to > 0:
+        samples[0] = rng.randrange(max(0, to - 3), to)
+    elif kind == "peak_out":
+        peaks[rng.randrange(len(peaks))] = nc + rng.choice([0, 1])
+    elif kind == "empty":
+        samples, peaks = [], []
+    return {"geom": geom, "r2": r2, "ns": ns, "to": to, "L": L, "dtype": dtype, "order": rng.choice(["C", "F"]),
+            "add_nan": add_nan, "samples": samples, "peaks": peaks, "kind": kind,
+            "df_dtype": rng.choice(["int64", "int32"])}
+
+
+def array_setup(c):
+    """The array handed to extract_wfs_array, the channel table, the index of its NaN row (-1: none)."""
+    nc, ns = len(c["geom"]), c["ns"]
+    stride = nc + 1
+    nb = ref_neighbours(c["geom"], c["r2"] * c["r2"], 4, nc)
+    is_int = c["dtype"].startswith("int")
+    nrows = nc if c["add_nan"] else nc + 1
+    arr = (np.arange(ns, dtype=np.int64)[None, :] * stride + np.arange(nrows, dtype=np.int64)[:, None]).astype(c["dtype"])
+    nan_row = nc
+    if not c["add_nan"]:
+        if is_int:
+            nan_row = -1                                      # the extra last row is ordinary data
+        else:
+            arr[nc, :] = np.nan
+    arr = np.asfortranarray(arr) if c["order"] == "F" else np.ascontiguousarray(arr)
+    return arr, nb, nan_row, stride
+
+
+def impl_array(c):
+    from ibldsp.waveform_extraction import extract_wfs_array
+    arr, nb, nan_row, stride = array_setup(c)
+    df = pd.DataFrame({"sample": np.array(c["samples"], dtype=c["df_dtype"]),
+                       "peak_channel": np.array(c["peaks"], dtype=c["df_dtype"])})
+    try:
+        with warnings.catch_warnings():
+            warnings.simplefilter("ignore")
+            wfs, cind, to_ret = extract_wfs_array(arr, df, np.array(nb, dtype=int), trough_offset=c["to"],
+                                                  spike_length_samples=c["L"], add_nan_trace=c["add_nan"])
+    except Exception as e:  # noqa
+        return {"error": "%s: %s" % (type(e).__name__, str(e)[:120])}
+    return {"wfs": np.asarray(wfs), "cind": np.asarray(cind).astype(np.int64), "to": int(to_ret)}
+
+
+def oracle_array(c, obs):
+    """Cells of extract_wfs_array against the source array, for spikes whose window lies in the array."""
+    arr, nb, nan_row, stride = array_setup(c)
+    ns, to, L = c["ns"], c["to"], c["L"]
+    if "error" in obs:
+        return ["extract_wfs_array raised %s on spikes whose windows lie inside the array" % obs["error"]]
+    bad = []
+    n, nnb = len(c["samples"]), len(nb[0])
+    if obs["wfs"].shape != (n, nnb, L):
+        return ["waveform stack has shape %s, expected %s" % (obs["wfs"].shape, (n, nnb, L))]
+    for w, (sm, pk) in enumerate(zip(c["samples"], c["peaks"])):
+        rows = np.array(nb[pk])
+        exp = (np.arange(sm - to, sm - to + L, dtype=np.float64)[None, :] * stride + rows[:, None]).astype(np.float64)
+        exp[rows == nan_row, :] = np.nan
+        if not nan_eq(obs["wfs"][w], exp):
+            k = "NaN padding" if np.any(np.isnan(exp) != np.isnan(obs["wfs"][w].astype(np.float64))) else "window"
+            bad.append("waveform %d (sample %d, peak %d, %s input, add_nan_trace=%s): %s differs from the source"
+                       % (w, sm, pk, c["dtype"], c["add_nan"], k))
+            break
+        if list(obs["cind"][w]) != nb[pk]:
+            bad.append("returned channel indices of waveform %d are not the neighbourhood of its peak" % w)
+            break
+    if obs["to"] != to:
+        bad.append("returned trough offset differs")
+    return bad
+
+
+def enc_array_inp(c):
+    arr, nb, nan_row, stride = array_setup(c)
+    out = [3, c["ns"], nan_row, c["to"], c["L"], stride, len(nb)]
+    for r in nb:
+        out += [len(r)] + r
+    out += [len(c["samples"])] + [v for p in zip(c["samples"], c["peaks"]) for v in p]
+    return out
+
+
+def enc_array_obs(c, obs):
+    if "error" in obs:
+        return [0]
+    w = obs["wfs"]
+    return [1, w.shape[0], w.shape[1], w.shape[2]] + enc_cells(w) + [int(x) for x in obs["cind"].ravel()]
+
+
 # --------------------------------------------------------------------------
 def case_desc(case, size, n_jobs):
     d = {k: case[k] for k in ("ns", "nc", "geom", "to", "L", "maxwf", "spikes", "seed", "labels", "indices")}
@@ -657,6 +771,24 @@ def run(ctx):
         if len({tuple(r) for r in exp}) > 1:
             nontrivial.add(json.dumps(c, sort_keys=True))
 
+    # extract_wfs_array called directly: dtypes, memory order, add_nan_trace, probe ends, radii
+    narr = 1500 if ctx.thorough() else 220
+    arr_cases = [gen_array_case(rng) for _ in range(narr)]
+    arr_cases += [gen_array_case(rng, big=b) for b in (bigs * (3 if ctx.thorough() else 1))]
+    arr_stats = {}
+    for c in arr_cases:
+        obs = impl_array(c)
+        key = "%s/%s/%s" % (c["dtype"], c["order"], "add_nan" if c["add_nan"] else "has_nan_row")
+        arr_stats[key] = arr_stats.get(key, 0) + 1
+        if c["kind"] == "valid":
+            for what in oracle_array(c, obs):
+                ctx.fail(what, c, {"kind": "array"})
+            if len({tuple(r) for r in ref_neighbours(c["geom"], c["r2"] * c["r2"], 4, len(c["geom"]))}) > 1:
+                nontrivial.add(json.dumps(c, sort_keys=True))
+        inputs.append(enc_array_inp(c))
+        outputs.append(enc_array_obs(c, obs))
+        descs.append(c)
+
     common.correspondence(ctx, PROP, HEADER, inputs, outputs, lambda i: descs[i], n_kernel=24)
 
     ex = [d for d in descs if "spikes" in d]
@@ -668,6 +800,9 @@ def run(ctx):
             "unsigned_cluster_or_channel_dtype": sum(1 for c in cases if c["dt"][1][0] == "u" or c["dt"][2][0] == "u"),
             "non_contiguous_inputs": sum(1 for c in cases if c["strided"]),
             "bin_file_as_str": sum(1 for c in cases if c["bin_str"]),
+            "extract_wfs_array_cases": len(arr_cases),
+            "extract_wfs_array_kinds": {k: sum(1 for c in arr_cases if c["kind"] == k) for k in ("valid", "assert", "wrap", "peak_out", "empty")},
+            "extract_wfs_array_dtype_order_flag": dict(sorted(arr_stats.items())),
             "loader_calls_in_sequences_with_inplace_edits": stats["loader_calls"],
             "out_of_domain_chunk_lt_trough_offset": sum(1 for c in cases if c.get("out_of_domain")),
             "out_of_domain_no_exception": stats.get("out_of_domain_no_exception", 0),
@@ -692,7 +827,9 @@ def run(ctx):
              "per recording (500..10000 and small ones >= trough_offset), n_jobs 1..4; every configuration is run "
              "through the real extract_wfs_cbin + WaveformsLoader and through the Coq model (all four files + loader "
              "selection), the files of all configurations of one recording must be identical; plus "
-             "make_channel_index on random geometries/radii/pad values; non-trivial = at least 2 waveforms and at "
+             "make_channel_index on random geometries/radii/pad values; plus extract_wfs_array called directly on "
+             "float32/float64/int16/int32 arrays in C or F order, add_nan_trace on/off, peaks at both probe ends, several "
+             "radii, windows touching both array ends, with assertion / wrap / bad-peak / empty-df streams; non-trivial = at least 2 waveforms and at "
              "least 2 chunks (extraction) or at least two different neighbour rows (channel index); distinct by input",
         samples=samples, evaluations=len(inputs), distinct_nontrivial=len(nontrivial),
         extra={"input_distribution": dist, "exhaustive": False},
@@ -706,6 +843,14 @@ def replay(ctx, data):
     if not inp:
         print(json.dumps(data, indent=1)[:3000])
         return 1
+    if "samples" in inp:
+        obs = impl_array(inp)
+        bad = oracle_array(inp, obs) if inp.get("kind") == "valid" else []
+        print("extract_wfs_array:", obs.get("error") or ("first cells", [float(x) for x in obs["wfs"][:, :, 0].ravel()[:12]]))
+        print("property clauses failing on the implementation:", bad)
+        ids = common.coq_mismatches(PROP, HEADER, [common.flat_cases_term(0, enc_array_inp(inp), enc_array_obs(inp, obs))])
+        print("kernel-evaluated model agrees with implementation:", not ids)
+        return 1 if (bad or ids) else 0
     if "spikes" not in inp:
         got = impl_chanidx(inp)
         exp = ref_neighbours(inp["geom"], inp["r2"] * inp["r2"], 4, inp["padv"])
